@@ -3,6 +3,7 @@ import Feox.Fmt.Commit
 import Feox.Fmt.ScanOk
 import Feox.Fmt.Replay
 import Feox.Fmt.Batch
+import Feox.Fmt.ReplayRuns
 import Feox.Proto.Slots
 /-!
 # C03 (continued) — the two transactions of the device protocol, on the bytes
